@@ -18,8 +18,10 @@ def span_spec(gs, c0, c1):
 def lines_spec(gs, c0, c1):
     """whole lines from the line of c0 to the line of c1"""
     n = len(gs)
+    if n == 0:
+        return ""
     lo, hi = min(c0, c1), max(c0, c1)
-    s = lo
+    s = min(lo, n)
     while s > 0 and gs[s - 1] != "\n":
         s -= 1
     e = min(hi, n - 1)
